@@ -131,6 +131,7 @@ type Style struct {
 	FullParens bool // parenthesise every binary operand
 	Space      int  // 0 single spaces between all tokens, 1 minimal, 2 random XML white space
 	Rng        *rand.Rand
+	Literal    string // if set: this exact text (a recorded rendering) instead of a rendering
 }
 
 var prec = map[string]int{"or": 1, "and": 2, "eq": 3, "ne": 3, "lt": 4, "le": 4, "gt": 4, "ge": 4,
@@ -384,6 +385,9 @@ func joinTokens(toks []string, st Style) string {
 
 // Render turns an AST into XPath text.
 func Render(e *Expr, st Style) (string, error) {
+	if st.Literal != "" {
+		return st.Literal, nil
+	}
 	r := &renderer{st: st}
 	r.expr(e)
 	if r.err != nil {
